@@ -227,9 +227,10 @@ open HdVerif HdVerif.Gen
 
 /-! ### the constructor -/
 
-theorem ctorValueAttr_spec (n ml : Nat) (a b : Bool) :
-    ctorValueAttr (n : Int) a b (ml : Int) =
-      if ml > 64 then .error .value else .ok (if a || b then 2 else if n > 16 then 1 else 0) := by
+theorem ctorValueAttr_spec (n ml : Nat) (a b b1 b2 b3 g4 b4 : Bool) :
+    ctorValueAttr b1 b2 b3 g4 b4 (n : Int) a b (ml : Int) =
+      if (b1 || b2 || b3 || (g4 && b4)) = true then .error .value
+      else if ml > 64 then .error .value else .ok (if a || b then 2 else if n > 16 then 1 else 0) := by
   unfold ctorValueAttr
   grind (splits := 40)
 
@@ -248,9 +249,20 @@ theorem filter_cons_ne (a b k : String) (rest : DS) (h : a ≠ k) :
   have : (a != k) = true := by simpa using h
   simp [List.filter, this]
 
+/-- URN (RFC 8141: the leading "urn" is case-insensitive) or URL, with the specification's OWN literals -/
+def specIsUrn (v : String) : Bool :=
+  "urn:".toList.isPrefixOf (v.toList.map Char.toLower) || hasInfix "://".toList v.toList
+
+/-- the code's test (built from the regenerated literals) is the specification's -/
+theorem looksLikeUrn_spec (v : String) : looksLikeUrn v = specIsUrn v := rfl
+
 /-- which keyword the standard assigns: URN/URL form → URNCodeValue, otherwise by length -/
 def stdKeyword (v : String) : String :=
-  if looksLikeUrn v then "URNCodeValue" else if v.length ≤ 16 then "CodeValue" else "LongCodeValue"
+  if specIsUrn v then "URNCodeValue" else if v.length ≤ 16 then "CodeValue" else "LongCodeValue"
+
+/-- an argument the constructor must refuse: the DICOM value delimiter in any of the four strings -/
+def anyBackslash (v s m : String) (ver : Option String) : Bool :=
+  hasBackslash v || hasBackslash s || hasBackslash m || (ver.isSome && optHasBackslash ver)
 
 /-- the dataset the constructor builds -/
 def builtDS (kw v s m : String) : Option String → DS
@@ -277,37 +289,42 @@ theorem stdKeyword_cases (v : String) :
 /-- the constructor, spelled out -/
 theorem mkConcept_spec (v s m : String) (ver : Option String) :
     mkConcept v s m ver =
-      if m.length > 64 then .error .value else .ok (builtDS (stdKeyword v) v s m ver) := by
-  unfold mkConcept stdKeyword looksLikeUrn
-  rw [ctorValueAttr_spec]
-  generalize urnPrefix.toList.isPrefixOf v.toList = a
+      if anyBackslash v s m ver = true then .error .value
+      else if m.length > 64 then .error .value else .ok (builtDS (stdKeyword v) v s m ver) := by
+  unfold mkConcept stdKeyword anyBackslash
+  rw [ctorValueAttr_spec, ← looksLikeUrn_spec]
+  unfold looksLikeUrn
+  generalize prefixTest v = a
   generalize hasInfix urlMarker.toList v.toList = b
-  by_cases hm : m.length > 64
-  · simp [hm]
-  · simp only [hm, if_false]
-    by_cases hu : (a || b) = true
-    · simp only [hu, if_true]
-      have : ¬ ((2 : Int) < 0) := by decide
-      simp only [this, if_false]
-      have : codeValueKeywords[(2 : Int).toNat]? = some "URNCodeValue" := by decide
-      simp only [this]
-      exact build_kw _ v s m ver (by simp)
-    · simp only [hu, Bool.false_eq_true, if_false]
-      by_cases hl : v.length > 16
-      · have hl' : ¬ v.length ≤ 16 := by omega
-        simp only [hl, hl', if_true, if_false]
-        have : ¬ ((1 : Int) < 0) := by decide
+  by_cases hb : (hasBackslash v || hasBackslash s || hasBackslash m || (ver.isSome && optHasBackslash ver)) = true
+  · simp [hb]
+  · simp only [hb, Bool.false_eq_true, if_false]
+    by_cases hm : m.length > 64
+    · simp [hm]
+    · simp only [hm, if_false]
+      by_cases hu : (a || b) = true
+      · simp only [hu, if_true]
+        have : ¬ ((2 : Int) < 0) := by decide
         simp only [this, if_false]
-        have : codeValueKeywords[(1 : Int).toNat]? = some "LongCodeValue" := by decide
+        have : codeValueKeywords[(2 : Int).toNat]? = some "URNCodeValue" := by decide
         simp only [this]
         exact build_kw _ v s m ver (by simp)
-      · have hl' : v.length ≤ 16 := by omega
-        simp only [hl, hl', if_true, if_false]
-        have : ¬ ((0 : Int) < 0) := by decide
-        simp only [this, if_false]
-        have : codeValueKeywords[(0 : Int).toNat]? = some "CodeValue" := by decide
-        simp only [this]
-        exact build_kw _ v s m ver (by simp)
+      · simp only [hu, Bool.false_eq_true, if_false]
+        by_cases hl : v.length > 16
+        · have hl' : ¬ v.length ≤ 16 := by omega
+          simp only [hl, hl', if_true, if_false]
+          have : ¬ ((1 : Int) < 0) := by decide
+          simp only [this, if_false]
+          have : codeValueKeywords[(1 : Int).toNat]? = some "LongCodeValue" := by decide
+          simp only [this]
+          exact build_kw _ v s m ver (by simp)
+        · have hl' : v.length ≤ 16 := by omega
+          simp only [hl, hl', if_true, if_false]
+          have : ¬ ((0 : Int) < 0) := by decide
+          simp only [this, if_false]
+          have : codeValueKeywords[(0 : Int).toNat]? = some "CodeValue" := by decide
+          simp only [this]
+          exact build_kw _ v s m ver (by simp)
 
 end HdVerif.Coding
 
